@@ -222,8 +222,24 @@ func runScript(rnd *rand.Rand, c scriptCase, cutAt int) {
 				b = 1 + rnd.Intn(9000)
 			}
 		}
+		t0, gotBefore := sc.Timeouts, len(got)
 		n, err := hc.Read(buf[:b])
 		run.Count("read_calls", 1)
+		if n > 0 && sc.Timeouts > t0 {
+			// The call returned data, but on its way it went back to the network and ran into a read timeout (on a
+			// real socket: it blocked until the deadline). If complete frames were waiting at that moment, data
+			// was withheld although it had arrived.
+			avail := 0
+			for _, e := range ends {
+				if e.raw <= sc.DeliveredAtTimeout {
+					avail = e.plain
+				}
+			}
+			if avail > gotBefore {
+				viol("read:not-prompt", fmt.Sprintf("Read waited for the network (read timeout inside the call) although %d plaintext bytes of completely arrived frames had not been returned yet; it returned them only afterwards", avail-gotBefore))
+				return
+			}
+		}
 		if n > 0 {
 			got = append(got, buf[:n]...)
 			if len(got) > len(expected) || !bytes.Equal(got[len(got)-n:], expected[len(got)-n:len(got)]) {
